@@ -241,6 +241,20 @@ def write_summary_file_vue(stats, filepath, year=2025, currency_format="${amount
         merchant_ids[name] = candidate
         return candidate
 
+    # Helper function to create view (section) IDs
+    used_section_ids = set()
+
+    def make_section_id(name):
+        base = name.lower().replace(' ', '_')
+        # Different view names can reduce to the same id ("Big Bills" / "big_bills"); ids key
+        # the report's views, so a collision would drop one of the views
+        candidate, n = base, 2
+        while candidate in used_section_ids:
+            candidate = f"{base}_{n}"
+            n += 1
+        used_section_ids.add(candidate)
+        return candidate
+
     # Build section merchants data
     def build_section_merchants(merchant_dict):
         merchants = {}
@@ -315,11 +329,12 @@ def write_summary_file_vue(stats, filepath, year=2025, currency_format="${amount
 
     if user_sections:
         for section_name, section_data in user_sections.items():
-            section_id = section_name.lower().replace(' ', '_')
             merchants_list = section_data.get('merchants', [])
 
             if not merchants_list:
                 continue
+
+            section_id = make_section_id(section_name)
 
             # Convert list of (name, data) tuples to dict format
             merchant_dict = {name: data for name, data in merchants_list}
